@@ -19,6 +19,7 @@ type Obligation struct {
 	Goal    Term
 	Cover   bool // expected SAT (vacuity canary): checks pc ∧ goal satisfiable
 	OK      bool // set by judge()
+	Skipped bool // obligation kind not part of the property being checked
 	Src     string
 	Pos     string
 	Trace   []string
@@ -64,6 +65,7 @@ type FuncVerifier struct {
 	allowsDone bool
 	mergeMode bool
 	fork     *forkOut
+	ccMode   int
 }
 
 func (fv *FuncVerifier) addOb(st *State, kind, name string, goal Term, src string, pos token.Pos) *Obligation {
@@ -292,6 +294,9 @@ func (fv *FuncVerifier) summarizeInstr(ins ssa.Instruction, cells map[ssa.Value]
 					fv.modPrefixes(ic, prefixes, havocAll)
 					return
 				}
+				if fv.db.purePrefixOf(ifaceMethodName(cc)) != "" {
+					return
+				}
 			}
 			*havocAll = true
 			return
@@ -320,6 +325,9 @@ func (fv *FuncVerifier) summarizeInstr(ins ssa.Instruction, cells map[ssa.Value]
 		}
 		c := fv.db.Funcs[callee.String()]
 		if c == nil {
+			if fv.db.purePrefixOf(callee.String()) != "" {
+				return
+			}
 			*havocAll = true
 			return
 		}
